@@ -1901,6 +1901,15 @@ struct Value {
     }
 
     bool GroupBy(Value &groupedValue, const Char_T *key, const SizeT length) const {
+        if (&groupedValue == this) {
+            // The result replaces the source: group into a temporary first.
+            Value      tmp;
+            const bool grouped = GroupBy(tmp, key, length);
+            groupedValue       = Memory::Move(tmp);
+
+            return grouped;
+        }
+
         const ValueType type = Type();
 
         if (type == ValueType::Array) {
